@@ -32,7 +32,7 @@ def case_strategy(draw, name):
               bounds=draw(st.sampled_from(['default', 'default', 'explicit', 'swapped', 'feasible'])),
               bfrac=[draw(st.floats(0.05, 0.6, allow_nan=False)), draw(st.floats(0.4, 1.5, allow_nan=False))],
               max_iter=draw(st.sampled_from([1, 2, 5, 5000, 5000])), tol=draw(st.sampled_from([1e-3, 1e-10, 1e-10])),
-              n_pairs=draw(st.integers(4, 60)), extreme=extreme, xscale=draw(st.sampled_from([-5, -4, -3, 3, 4, 5])))
+              n_pairs=draw(st.integers(4, 60)), coarse=draw(st.integers(0, 3)) == 0, extreme=extreme, xscale=draw(st.sampled_from([-5, -4, -3, 3, 4, 5])))
 
 
 def _fix(case):
@@ -53,6 +53,11 @@ def check_c11(case, stats):
   name = case['est']
   data = gen.Data(case['desc'])
   d = data.d
+  if case.get('coarse'):
+    # points on a coarse grid: many ties in single coordinates (not collapsed pairs), points shared by pairs
+    step = float(np.abs(data.X).max()) / 4.0
+    data.X = np.round(data.X / step) * step
+    data._c = {}
   prior = gen.spd_from_seed(d, case['aseed']) if case['prior'] == 'array' else case['prior']
   gamma = 10.0 ** case['loggamma']
   params = dict(prior=prior, gamma=gamma, max_iter=case['max_iter'], tol=case['tol'], random_state=case['seed'] % 1000)
@@ -106,7 +111,9 @@ def check_c11(case, stats):
     try:
       r = call('C11/fit/' + name, est.fit, *fargs, **kw)
     except Violation as v:
-      if v.sig.endswith('raises-NonPSDError') and ill:
+      if ill and (v.sig.endswith('raises-NonPSDError') or
+                  (v.sig.endswith('raises-ValueError') and 'should be symmetric' in v.msg)):
+        # the collapsed matrix is indefinite, or has become NaN (then the symmetry test fails first): same root cause
         raise Violation('C11/fit/%s/raises-NonPSDError/kappa>1e6' % name, v.msg)
       raise
   if '_lambda' not in loc:
